@@ -237,7 +237,7 @@ prop('C15', units=['toint', 'conv', 'scale', 'core', 'pow10'], level='proof',
                  'exactly when that integer fits the target type and None otherwise, with None for every negative decimal and unsigned target '
                  '(scale==0 fast paths per sign, the MIN special case and its closure, the re-scaling path), to_bigint = truncation, From<int>/From<&int> for all '
                  'ten integer types and From<BigInt> exact with scale 0, is_integer <=> i mod 10^s == 0'),
-     level_note=_NOTE_COMMON + ' num-bigint to_i64/to_u64/... are assumed (Some iff fits). The closure of the MIN special case is wrapped in a block to carry its contract (inline annotation). From<(T,i64)> is not under contract (tuple-pattern parameter).',
+     level_note=_NOTE_COMMON + ' num-bigint to_i64/to_u64/... are assumed (Some iff fits). The closure of the MIN special case is wrapped in a block to carry its contract (inline annotation). From<(T,i64)> is under contract generically (the pair is taken as it is; tuple-pattern parameter rewritten, R2).',
      technique=_TECH)
 
 prop('C19', units=['clients', 'add', 'sub', 'mul', 'derived', 'prim_add', 'prim_sub', 'prim_mul', 'core', 'scale', 'pow10', 'conv', 'canon', 'cmp'], level='proof',
